@@ -845,7 +845,7 @@ static void setup()
 	tmpdir		= mkdtemp(tmpl) ? tmpl : "/tmp";
 	build_catalogue();
 	add_generator("catalogue", cat.size(), [](Rng&, uint64_t i) { run_request(cat[i]); });
-	add_generator("random_guards", ctx().count(3000, 20000), random_guard);
+	add_generator("random_guards", ctx().count(3000, 100000), random_guard);
 	static pid_t owner = getpid();
 	atexit([] {
 		if(getpid() != owner)
